@@ -556,7 +556,9 @@ Qed.
 
 (* ---------- one evaluation of instance.next(): instance statuses move only inside check_instances ---------- *)
 Ltac sc_destruct := repeat match goal with H : SC _ _ _ |- _ => destruct H end.
-Ltac sc_fin H := inversion H; subst; clear H; sc_destruct; split; [congruence|nochk_tac].
+Ltac nochk_ifs :=
+  repeat match goal with |- context[nochk (if ?b then _ else _)] => destruct b end.
+Ltac sc_fin H := inversion H; subst; clear H; sc_destruct; split; [congruence|nochk_tac; nochk_ifs; nochk_tac].
 
 Lemma fsm_next_core : forall n orc now n' o d, fsm_next n orc now = Ok (n', o, d) ->
   exists n1 o1 lost lostp d1, check_instances n now = Ok (n1, o1, lost, lostp, d1) /\
@@ -602,11 +604,11 @@ Proof.
   - (* DISTRIBUTION *)
     destruct (ms_consistence n2 lost) as [[[n3 o3] d3]|k] eqn:E3; [|discriminate]. apply ms_consistence_SC in E3.
     destruct d3; [sc_fin H|].
-    destruct (is_master n3) eqn:M; [destruct lostp|]; sc_fin H.
+    destruct (is_master n3) eqn:M; sc_fin H.
   - (* OPERATION *)
     destruct (ms_consistence n2 lost) as [[[n3 o3] d3]|k] eqn:E3; [|discriminate]. apply ms_consistence_SC in E3.
     destruct d3; [sc_fin H|].
-    destruct (is_master n3) eqn:M; [destruct lostp|]; sc_fin H.
+    destruct (is_master n3) eqn:M; sc_fin H.
   - (* CONCILIATION *)
     destruct (ms_consistence n2 lost) as [[[n3 o3] d3]|k] eqn:E3; [|discriminate]. apply ms_consistence_SC in E3.
     destruct d3; [sc_fin H|].
